@@ -403,3 +403,30 @@ func specChunkWireSize(c *chunkPayloadData) int {
 //@      old(!(raw.(*paramOutgoingResetRequest).senderLastTSN == a.payloadQueue.cumulativeTSN ||
 //@      specSerLT32(raw.(*paramOutgoingResetRequest).senderLastTSN, a.payloadQueue.cumulativeTSN)))
 //@   at call rtxTimer.stop@2 assert#reconfig-timer-stopped-only-when-nothing-is-outstanding{C14} len(a.reconfigs) == 0
+
+// ---- C08: user data is still accepted (and acknowledged) while this side waits to send its SHUTDOWN ----
+
+//@ func isDataReceiveState
+//@   ensures#data-accepted-until-the-shutdown-handshake-is-under-way{C08} result == (state == established || state == shutdownPending || state == shutdownSent)
+
+// ---- C04: an extension advertised in a Supported Extensions parameter is recognised (out-of-band tokens take this path) ----
+
+//@ func supportedExtensionsFromChunkTypes
+//@   loop 1 invariant#in-range rangeIdx <= len(chunkTypes)
+//@   loop 1 invariant#nothing-advertised-so-far-was-missed forall j int :: 0 <= j && j < rangeIdx ==>
+//@      (chunkTypes[j] == ctForwardTSN ==> extensions.forwardTSN) && (chunkTypes[j] == ctIData ==> extensions.interleaving) && (chunkTypes[j] == ctIForwardTSN ==> extensions.iForwardTSN)
+//@   ensures#every-advertised-extension-is-recognised{C04,C17} forall j int :: 0 <= j && j < len(chunkTypes) ==>
+//@      (chunkTypes[j] == ctForwardTSN ==> result.forwardTSN) && (chunkTypes[j] == ctIData ==> result.interleaving) && (chunkTypes[j] == ctIForwardTSN ==> result.iForwardTSN)
+
+//@ func getSupportedExtensions
+//@   loop 1 invariant#in-range rangeIdx <= len(params)
+//@   loop 1 invariant#nothing-advertised-so-far-was-missed forall i int, j int :: 0 <= i && i < rangeIdx && typeIs(params[i], (*paramSupportedExtensions)(nil)) &&
+//@      0 <= j && j < len(params[i].(*paramSupportedExtensions).ChunkTypes) ==>
+//@      (params[i].(*paramSupportedExtensions).ChunkTypes[j] == ctForwardTSN ==> extensions.forwardTSN) &&
+//@      (params[i].(*paramSupportedExtensions).ChunkTypes[j] == ctIData ==> extensions.interleaving) &&
+//@      (params[i].(*paramSupportedExtensions).ChunkTypes[j] == ctIForwardTSN ==> extensions.iForwardTSN)
+//@   ensures#every-advertised-extension-is-recognised{C04,C17} forall i int, j int :: 0 <= i && i < len(params) && typeIs(params[i], (*paramSupportedExtensions)(nil)) &&
+//@      0 <= j && j < len(params[i].(*paramSupportedExtensions).ChunkTypes) ==>
+//@      (params[i].(*paramSupportedExtensions).ChunkTypes[j] == ctForwardTSN ==> result.forwardTSN) &&
+//@      (params[i].(*paramSupportedExtensions).ChunkTypes[j] == ctIData ==> result.interleaving) &&
+//@      (params[i].(*paramSupportedExtensions).ChunkTypes[j] == ctIForwardTSN ==> result.iForwardTSN)
